@@ -2,6 +2,8 @@
 package metainfogen
 
 import (
+	"crypto/sha256"
+	"encoding/hex"
 	"io"
 	"os"
 	"path/filepath"
@@ -14,7 +16,78 @@ import (
 	verif "github.com/uber/kraken/zzverif"
 )
 
-var verifBlob = []byte("ab")
+// C05: an origin or proxy crash at any point leaves its blob cache consistent.
+//
+// The blob DATA is symbolic: every upload / refresh writes verif.Bytes of a
+// length chosen by verif.Len. SHA-256 is the engine's uninterpreted function of
+// the written bytes, so whether a commit is accepted is the solver's decision;
+// the name under which everything is written is the real digest of a reference
+// content (verifGood, a prefix of verifAlphabet of chosen length) and collision
+// freeness for that name is assumed up front (verifMatchesName): bytes hashing
+// to the name are the reference content. Every observation after the restart is
+// compared to the reference content through the solver: bytes, length, and the
+// metainfo piece sums (crc32, uninterpreted as well) as the function of exactly
+// those bytes.
+
+// verifD is the claimed name of every write in a run, verifGood the one content
+// that really hashes to it.
+var (
+	verifD    string
+	verifGood []byte
+)
+
+const verifAlphabet = "abcde"
+
+func verifMaxLen() int { return verif.Bound("blob-len", 3, 5) }
+
+// verifPickName chooses the length of the reference content (case split) and
+// with it the name.
+func verifPickName() {
+	k := verif.Len("good-len", 0, verifMaxLen())
+	verifGood = []byte(verifAlphabet[:k])
+	d, err := core.NewDigester().FromBytes(verifGood)
+	if err != nil {
+		panic(err)
+	}
+	verifD = d.Hex()
+	verif.Note("SHA-256 collision freeness assumed for the name under test: bytes hashing to it equal the reference content")
+}
+
+func verifEq(a, b []byte) bool {
+	if len(a) != len(b) {
+		return false
+	}
+	same := true
+	for i := range a {
+		same = verif.And(same, a[i] == b[i])
+	}
+	return same
+}
+
+// verifMatchesName is the (symbolic) fact "b hashes to d", stated on the raw
+// SHA-256 bytes (hex encoding is injective), together with the collision
+// freeness assumption for d: such a b is the reference content good.
+func verifMatchesName(b []byte, d string, good []byte) bool {
+	sum := sha256.Sum256(b)
+	want, err := hex.DecodeString(d)
+	if err != nil || len(want) != len(sum) {
+		panic("bad reference digest")
+	}
+	m := true
+	for i := range sum {
+		m = verif.And(m, sum[i] == want[i])
+	}
+	verif.Assume(verif.Implies(m, verifEq(b, good)))
+	return m
+}
+
+// verifSymBlob draws the bytes a client uploads / a backend streams under the
+// name verifD: n arbitrary bytes. Returns them and the fact "they hash to the
+// name".
+func verifSymBlob(tag string, n int) ([]byte, bool) {
+	data := verif.Bytes(tag, n)
+	return data, verifMatchesName(data, verifD, verifGood)
+}
 
 func verifOpen() (*store.CAStore, error) {
 	root := filepath.Join(verif.TempDir(), "c05")
@@ -30,38 +103,42 @@ func verifSidecar(name string) string {
 	return filepath.Join(verif.TempDir(), "c05", "cache", name[0:2], name[2:4], name, metadata.GetTorrentMetadataSuffix())
 }
 
-func verifDigest() core.Digest {
-	d, err := core.NewDigester().FromBytes(verifBlob)
-	if err != nil {
-		panic(err)
-	}
-	return d
+func verifGenerator(cas *store.CAStore, pieceLength int64) *Generator {
+	g, err := New(Config{PieceLengths: map[datasize.ByteSize]datasize.ByteSize{0: datasize.ByteSize(pieceLength)}}, cas)
+	verif.Assert("generator", err == nil)
+	return g
 }
 
 // verifAfterRestart opens a fresh store on the same directories and checks
 // what the statement promises after a crash: the store opens; every listed
-// blob is readable and hashes to its name; its metainfo is absent or valid.
-//
-// Findings F1 (listed name without data file, fixed by 869ea73) and F2 (empty
-// or truncated metainfo sidecar, fixed by fb680c2 / 48c7110) are asserted in
-// every harness; the strict flag is kept only for the recorded function names.
+// blob is readable and hashes to its name — decided by the solver on the bytes
+// found on disk: their SHA-256 (uninterpreted) is the name's digest, their
+// length is the reference length and every byte is the reference byte; its
+// metainfo is absent or valid for exactly those bytes (digest, length, piece
+// count, every piece sum the crc32 function of exactly that piece's bytes).
 // "Absent (and regenerated on demand)" is checked by running the on-demand
 // path (a backend refresh of the cached blob) whenever the metainfo is absent.
-func verifAfterRestart(strict bool) *store.CAStore {
+// pieceLength is the configured piece length (0: either of the rewrite
+// scenario's two).
+func verifAfterRestart(pieceLength int64) *store.CAStore {
 	cas, err := verifOpen()
 	verif.Assert("store-opens-after-crash", err == nil)
 	names, err := cas.ListCacheFiles()
 	verif.Assert("list-after-crash", err == nil)
 	for _, name := range names {
 		verif.Reach("blob-listed-after-restart")
-		_ = strict // F1 (listed name without data file) was repaired upstream (869ea73): checked everywhere now
+		// one name is written in a run
+		verif.Assert("listed-name-was-written", name == verifD)
 		r, err := cas.GetCacheFileReader(name)
 		verif.Assert("listed-blob-is-readable", err == nil)
 		b, err := io.ReadAll(r)
 		r.Close()
 		verif.Assert("listed-blob-read", err == nil)
-		d, err := core.NewDigester().FromBytes(b)
-		verif.Assert("listed-blob-hashes-to-name", err == nil && d.Hex() == name)
+		verif.Assert("listed-blob-hashes-to-name", verifMatchesName(b, name, verifGood))
+		verif.Assert("listed-blob-has-reference-length", len(b) == len(verifGood))
+		for i := 0; i < len(b) && i < len(verifGood); i++ {
+			verif.Assert("listed-blob-byte-is-reference-byte", b[i] == verifGood[i])
+		}
 
 		if fi, err := os.Stat(verifSidecar(name)); err == nil {
 			verif.Reach("metainfo-sidecar-on-disk-after-restart")
@@ -73,6 +150,10 @@ func verifAfterRestart(strict bool) *store.CAStore {
 			verif.Reach("metainfo-absent-after-restart")
 		}
 		verif.Cover("metainfo-present-after-restart", merr == nil)
+		regenLength := pieceLength
+		if regenLength == 0 {
+			regenLength = 1
+		}
 		if merr != nil {
 			// getMetaInfo regenerates on not-exist and answers 500 on anything else
 			verif.Assert("metainfo-absent-or-valid", os.IsNotExist(merr))
@@ -84,129 +165,192 @@ func verifAfterRestart(strict bool) *store.CAStore {
 			rerr := cas.WriteBlobToCacheWithMetaInfo(name, uint64(len(b)), func(w store.FileReadWriter) error {
 				_, err := w.Write(b)
 				return err
-			}, 1)
+			}, regenLength)
 			verif.Assert("on-demand-refresh-succeeds", rerr == nil)
 			merr = cas.GetCacheFileMetadata(name, &tm)
 			verif.Assert("metainfo-present-after-on-demand-refresh", merr == nil)
 		}
 		mi := tm.MetaInfo
 		verif.Assert("metainfo-names-blob", mi.Digest().Hex() == name)
-		verif.Assert("metainfo-length", mi.Length() == int64(len(b)))
+		n := int64(len(b))
+		verif.Assert("metainfo-length", mi.Length() == n)
 		pl := mi.PieceLength()
 		verif.Assert("metainfo-piece-length-positive", pl > 0)
-		for i := 0; i < mi.NumPieces(); i++ {
+		if pieceLength != 0 {
+			verif.Assert("metainfo-piece-length-is-the-configured-one", pl == pieceLength)
+		}
+		want := 0
+		if n > 0 {
+			want = int((n-1)/pl + 1)
+		}
+		verif.Assert("metainfo-piece-count", mi.NumPieces() == want)
+		for i := 0; i < mi.NumPieces() && i < want; i++ {
 			lo := int64(i) * pl
 			hi := lo + pl
-			if hi > int64(len(b)) {
-				hi = int64(len(b))
+			if hi > n {
+				hi = n
 			}
-			verif.Assert("metainfo-piece-in-range", lo < hi)
+			verif.Reach("metainfo-piece-checked")
+			// the sum is the checksum function applied to exactly those bytes
+			// found on disk …
 			verif.Assert("metainfo-piece-sum", mi.GetPieceSum(i) == core.PieceSum(b[lo:hi]))
+			// … and therefore the real checksum of the reference content's piece
+			if hi <= int64(len(verifGood)) {
+				verif.Assert("metainfo-piece-sum-of-reference-bytes", mi.GetPieceSum(i) == core.PieceSum(verifGood[lo:hi]))
+			}
 		}
 	}
 	return cas
 }
 
-// verifScenario: 0 = client upload, commit, mark for write-back, generate
-// metainfo; 1 = refresh from a storage backend (blob and metainfo in one call).
-func verifScenario(which int) {
-	cas, err := verifOpen()
-	verif.Assert("store-opens", err == nil)
-	d := verifDigest()
-	switch which {
-	case 0:
-		uid := "u1"
-		verif.Assert("create-upload", cas.CreateUploadFile(uid, 0) == nil)
-		w, err := cas.GetUploadFileReadWriter(uid)
-		verif.Assert("open-upload", err == nil)
-		_, err = w.Write(verifBlob)
-		verif.Assert("write-upload", err == nil)
-		w.Close()
-		verif.Assert("commit", cas.MoveUploadFileToCache(uid, d.Hex()) == nil)
-		_, err = cas.SetCacheFileMetadata(d.Hex(), metadata.NewPersist(true))
-		verif.Assert("persist", err == nil)
-		g, err := New(Config{PieceLengths: map[datasize.ByteSize]datasize.ByteSize{0: 1}}, cas)
-		verif.Assert("generator", err == nil)
-		verif.Assert("generate", g.Generate(d) == nil)
-	case 2:
-		// client upload whose bytes do not hash to the claimed digest
-		uid := "u2"
-		verif.Assert("create-upload", cas.CreateUploadFile(uid, 0) == nil)
-		w, err := cas.GetUploadFileReadWriter(uid)
-		verif.Assert("open-upload", err == nil)
-		_, err = w.Write([]byte("zz"))
-		verif.Assert("write-upload", err == nil)
-		w.Close()
-		verif.Assert("mismatching-commit-rejected", cas.MoveUploadFileToCache(uid, d.Hex()) != nil)
-		_, serr := cas.GetCacheFileStat(d.Hex())
-		verif.Assert("nothing-cached-after-rejected-commit", os.IsNotExist(serr))
-		return
-	case 1:
-		err := cas.WriteBlobToCacheWithMetaInfo(d.Hex(), uint64(len(verifBlob)), func(w store.FileReadWriter) error {
-			_, err := w.Write(verifBlob)
-			return err
-		}, 1)
-		verif.Assert("refresh", err == nil)
-	}
+// verifNothingVisible: nothing is served under the name.
+func verifNothingVisible(cas *store.CAStore, label string) {
+	_, serr := cas.GetCacheFileStat(verifD)
+	verif.Assert(label, os.IsNotExist(serr))
 }
 
-func verifCrashRun(which int, strict bool) {
+// verifUpload: client upload of data under the name, commit, mark for
+// write-back, generate metainfo. Returns whether the commit was accepted.
+func verifUpload(data []byte, matches bool, pieceLength int64) bool {
+	cas, err := verifOpen()
+	verif.Assert("store-opens", err == nil)
+	uid := "u1"
+	verif.Assert("create-upload", cas.CreateUploadFile(uid, 0) == nil)
+	w, err := cas.GetUploadFileReadWriter(uid)
+	verif.Assert("open-upload", err == nil)
+	_, err = w.Write(data)
+	verif.Assert("write-upload", err == nil)
+	w.Close()
+	if err := cas.MoveUploadFileToCache(uid, verifD); err != nil {
+		verif.Reach("commit-rejected")
+		verif.Assert("rejected-commit-does-not-match-name", !matches)
+		verifNothingVisible(cas, "nothing-cached-after-rejected-commit")
+		return false
+	}
+	verif.Reach("commit-accepted")
+	verif.Assert("accepted-commit-matches-name", matches)
+	_, err = cas.SetCacheFileMetadata(verifD, metadata.NewPersist(true))
+	verif.Assert("persist", err == nil)
+	d, err := core.NewSHA256DigestFromHex(verifD)
+	verif.Assert("digest", err == nil)
+	verif.Assert("generate", verifGenerator(cas, pieceLength).Generate(d) == nil)
+	return true
+}
+
+// verifRefresh: refresh from a storage backend that streams data (blob and
+// metainfo in one call, disk path).
+func verifRefresh(data []byte, matches bool, pieceLength int64) bool {
+	cas, err := verifOpen()
+	verif.Assert("store-opens", err == nil)
+	err = cas.WriteBlobToCacheWithMetaInfo(verifD, uint64(len(data)), func(w store.FileReadWriter) error {
+		_, err := w.Write(data)
+		return err
+	}, pieceLength)
+	if err != nil {
+		verif.Reach("refresh-rejected")
+		verif.Assert("rejected-refresh-does-not-match-name", !matches)
+		verifNothingVisible(cas, "nothing-cached-after-rejected-refresh")
+		return false
+	}
+	verif.Reach("refresh-accepted")
+	verif.Assert("accepted-refresh-matches-name", matches)
+	return true
+}
+
+const (
+	verifUploadScenario = iota
+	verifRefreshScenario
+)
+
+// verifCrashRun: a blob of symbolic length (independent of the length of the
+// reference content) and arbitrary bytes goes through the scenario with a crash
+// before any of its file-system steps; restart; oracle. The store's digest check decides (by the
+// solver) whether the bytes are accepted: accepted bytes are the reference
+// content, rejected ones leave nothing.
+func verifCrashRun(which int, pieceLength int64) {
 	verif.Option("max_preempt", 0)
-	done := false
+	verifPickName()
+	data, matches := verifSymBlob("data", verif.Len("data-len", 0, verifMaxLen()))
+	verif.Cover("content-matches-name", matches)
+	verif.Cover("content-does-not-match-name", !matches)
+	accepted := false
 	crashed := verif.CrashScope(func() {
-		verifScenario(which)
-		done = true
+		switch which {
+		case verifUploadScenario:
+			accepted = verifUpload(data, matches, pieceLength)
+		case verifRefreshScenario:
+			accepted = verifRefresh(data, matches, pieceLength)
+		}
 	})
 	verif.Cover("crashed", crashed)
 	verif.Cover("completed", !crashed)
-	cas := verifAfterRestart(strict)
-	if which == 2 {
-		return
+	cas := verifAfterRestart(pieceLength)
+	if !matches {
+		verifNothingVisible(cas, "mismatching-content-never-cached")
 	}
-	if done {
-		_, err := cas.GetCacheFileStat(verifDigest().Hex())
+	if accepted {
+		_, err := cas.GetCacheFileStat(verifD)
 		verif.Assert("completed-blob-still-cached", err == nil)
 	}
 }
 
 // VerifCrashDuringUploadCommit: crash at any file-system step of upload,
-// commit, persist flag and metainfo generation, then restart.
-func VerifCrashDuringUploadCommit() { verifCrashRun(0, false) }
+// commit, persist flag and metainfo generation (piece length 1), then restart.
+func VerifCrashDuringUploadCommit() { verifCrashRun(verifUploadScenario, 1) }
 
-// VerifFindingCrashDuringUploadCommit: the same without filtering the open
-// finding F1.
-func VerifFindingCrashDuringUploadCommit() { verifCrashRun(0, true) }
+// VerifFindingCrashDuringUploadCommit: the same with piece length 2 (blobs of
+// odd length have a short last piece). Regression check of findings F1 / F2.
+func VerifFindingCrashDuringUploadCommit() { verifCrashRun(verifUploadScenario, 2) }
 
 // VerifCrashDuringRefresh: crash at any file-system step of a backend refresh
-// (disk path), then restart.
-func VerifCrashDuringRefresh() { verifCrashRun(1, false) }
+// (disk path, piece length 1), then restart.
+func VerifCrashDuringRefresh() { verifCrashRun(verifRefreshScenario, 1) }
 
-// VerifFindingCrashDuringRefresh: the same without filtering the open finding
-// F1.
-func VerifFindingCrashDuringRefresh() { verifCrashRun(1, true) }
+// VerifFindingCrashDuringRefresh: the same with piece length 2. Regression
+// check of findings F1 / F2.
+func VerifFindingCrashDuringRefresh() { verifCrashRun(verifRefreshScenario, 2) }
 
-// VerifFindingCrashDuringMetainfoRewrite: a cached blob already has metainfo
-// (piece length 1); metainfo is generated again with another piece length
-// configuration (sidecar content of another length, so compareAndWriteFile
-// used to truncate and then rewrite in place) and the process dies in between.
-// Finding F2, fixed in /repo by 48c7110: regression check.
+// VerifFindingCrashDuringMetainfoRewrite: a cached blob (symbolic bytes that
+// were accepted, hence the reference content) already has metainfo (piece
+// length 1); metainfo is generated again with another piece length
+// configuration (for blobs of two and more bytes sidecar content of another
+// length, so compareAndWriteFile used to truncate and then rewrite in place;
+// for shorter blobs a same-length in-place overwrite) and the process dies in
+// between. Finding F2, fixed in /repo by 48c7110: regression check.
 func VerifFindingCrashDuringMetainfoRewrite() {
 	verif.Option("max_preempt", 0)
-	verifScenario(0)
+	verifPickName()
+	data, matches := verifSymBlob("data", len(verifGood))
+	if !verifUpload(data, matches, 1) {
+		return
+	}
 	crashed := verif.CrashScope(func() {
 		cas, err := verifOpen()
 		verif.Assert("store-opens", err == nil)
-		g, err := New(Config{PieceLengths: map[datasize.ByteSize]datasize.ByteSize{0: 2}}, cas)
-		verif.Assert("generator", err == nil)
-		verif.Assert("regenerate", g.Generate(verifDigest()) == nil)
+		d, err := core.NewSHA256DigestFromHex(verifD)
+		verif.Assert("digest", err == nil)
+		verif.Assert("regenerate", verifGenerator(cas, 2).Generate(d) == nil)
 	})
 	verif.Cover("crashed", crashed)
-	cas := verifAfterRestart(true)
-	_, err := cas.GetCacheFileStat(verifDigest().Hex())
+	cas := verifAfterRestart(0)
+	_, err := cas.GetCacheFileStat(verifD)
 	verif.Assert("blob-still-cached", err == nil)
 }
 
-// VerifCrashDuringMismatchingCommit: crash at any file-system step of the
-// commit of an upload whose bytes do not hash to the claimed digest, then
-// restart: no blob that does not hash to its name survives in the cache.
-func VerifCrashDuringMismatchingCommit() { verifCrashRun(2, true) }
+// VerifCrashDuringMismatchingCommit: an upload of arbitrary bytes of arbitrary
+// length that are NOT the reference content (assumed) is committed under the
+// name; crash at any file-system step of that commit, then restart: the commit
+// is rejected and no blob that does not hash to its name survives in the cache.
+func VerifCrashDuringMismatchingCommit() {
+	verif.Option("max_preempt", 0)
+	verifPickName()
+	wrong, matches := verifSymBlob("wrong", verif.Len("wrong-len", 0, verifMaxLen()))
+	verif.Assume(!verifEq(wrong, verifGood))
+	crashed := verif.CrashScope(func() {
+		verif.Assert("mismatching-commit-rejected", !verifUpload(wrong, matches, 1))
+	})
+	verif.Cover("crashed", crashed)
+	verif.Cover("completed", !crashed)
+	cas := verifAfterRestart(1)
+	verifNothingVisible(cas, "mismatching-content-never-cached")
+}
